@@ -1,5 +1,6 @@
 import Lean.Data.Json
 import PfdlModel.Api
+import PfdlModel.Check
 /-! Line protocol driver: one JSON case per input line, one JSON result per output line. -/
 open Lean Pfdl
 
@@ -240,6 +241,96 @@ def runSched (j : Json) : Except String Json := do
   let d ← ops.foldlM (stepOp ee fuel) d0
   pure (Json.mkObj [("calls", Json.arr d.calls)])
 
+/-! validation requests -/
+
+def tyOf (s : String) : Check.Ty :=
+  match s.splitOn "[" with
+  | [e, rest] =>
+    let n := (rest.splitOn "]").head!
+    if n == "" then .arr e (-1) else match n.toInt? with
+      | some k => .arr e k
+      | none => .arr e (-1)
+  | _ => .name s
+
+partial def litOf (j : Json) : Check.Lit :=
+  match j with
+  | .num _ => .num
+  | .bool _ => .bool
+  | .str _ => .str
+  | .arr a => .arr (a.toList.map litOf)
+  | .obj m => .struct (m.toList.map (fun (k, v) => (k, litOf v)))
+  | .null => .str
+
+def litFields (j : Json) : List (String × Check.Lit) :=
+  match j with
+  | .obj m => m.toList.map (fun (k, v) => (k, litOf v))
+  | _ => []
+
+def cArgOf (j : Json) : Except String Check.Arg :=
+  match j with
+  | .str s => pure (.var s)
+  | .arr a => do pure (.path (← a.toList.mapM getStr))
+  | .obj _ => do pure (.lit (← getStr (← field j "lit")) (litFields (← field j "json")))
+  | _ => jerr "arg"
+
+def typedList (j : Option Json) : Except String (List (String × Check.Ty)) :=
+  match j with
+  | some a => do (← getArr a).toList.mapM (fun p => do
+      let q ← getArr p
+      pure (← getStr q[0]!, tyOf (← getStr q[1]!)))
+  | none => pure []
+
+def cCallOf (j : Json) : Except String Check.Call := do
+  let ins ← match fieldOpt j "ins" with
+    | some a => (← getArr a).toList.mapM cArgOf
+    | none => pure []
+  pure { name := ← getStr (← field j "name"), ins := ins, outs := ← typedList (fieldOpt j "outs"),
+         line := ← getNat (← field j "line") }
+
+partial def cStmtOf (j : Json) : Except String Check.Stmt := do
+  let k ← getStr (← field j "k")
+  let line ← getNat (← field j "line")
+  let blockOf (key : String) : Except String (List Check.Stmt) :=
+    match fieldOpt j key with
+    | some a => do (← getArr a).toList.mapM cStmtOf
+    | none => pure []
+  let limOf : Except String (Option (List String)) :=
+    match fieldOpt j "limit" with
+    | some (.arr a) => do pure (some (← a.toList.mapM getStr))
+    | _ => pure none
+  match k with
+  | "svc" => pure (.svc (← cCallOf j))
+  | "call" => pure (.call (← cCallOf j))
+  | "par" => do pure (.par (← (← getArr (← field j "calls")).toList.mapM cCallOf) line)
+  | "cond" => do pure (.cond (← exprOf (← field j "e")) (← blockOf "passed") (← blockOf "failed") line)
+  | "cloop" => do pure (.cloop false (← getStr (← field j "var")) (← limOf) (← blockOf "body") line)
+  | "wloop" => do pure (.wloop (← exprOf (← field j "e")) (← blockOf "body") line)
+  | "ploop" => do
+      let body ← match fieldOpt j "body" with
+        | some _ => blockOf "body"
+        | none => do pure [.call (← cCallOf (← field j "call"))]
+      pure (.cloop true (← getStr (← field j "var")) (← limOf) body line)
+  | _ => jerr s!"stmt kind {k}"
+
+def cProgOf (j : Json) : Except String Check.Prog := do
+  let structs ← (← getArr (← field j "structs")).toList.mapM (fun s => do
+    pure ({ name := ← getStr (← field s "name"), attrs := ← typedList (fieldOpt s "attrs"),
+            line := ← getNat (← field s "line") } : Check.Struct))
+  let tasks ← (← getArr (← field j "tasks")).toList.mapM (fun t => do
+    let outs ← match fieldOpt t "outs" with
+      | some a => (← getArr a).toList.mapM getStr
+      | none => pure []
+    pure ({ name := ← getStr (← field t "name"), ins := ← typedList (fieldOpt t "ins"), outs := outs,
+            body := ← (← getArr (← field t "body")).toList.mapM cStmtOf, line := ← getNat (← field t "line") } : Check.Task))
+  pure { structs := structs, tasks := tasks }
+
+def runCheck (j : Json) : Except String Json := do
+  let p ← cProgOf (← field j "prog")
+  match Check.validate p with
+  | none => pure (Json.mkObj [("raised", .bool true), ("errors", Json.arr #[])])
+  | some errs => pure (Json.mkObj [("raised", .bool false),
+      ("errors", Json.arr (errs.map (fun e => Json.arr #[.str e.kind, Json.num (JsonNumber.fromNat e.line)])).toArray)])
+
 def handle (line : String) : String :=
   match Json.parse line with
   | .error e => (Json.mkObj [("error", .str s!"parse: {e}")]).compress
@@ -247,6 +338,7 @@ def handle (line : String) : String :=
     let k := match j.getObjVal? "k" with | .ok (.str s) => s | _ => "sched"
     let r := match k with
       | "sched" => runSched j
+      | "check" => runCheck j
       | _ => .error s!"unknown request kind {k}"
     match r with
     | .ok out => out.compress
